@@ -4,9 +4,9 @@
 #   rejected was not processed; wait_for_all returns only when nothing runs and - in a loss-less graph - everything offered was processed).
 #   Real graphs (function-node chains with unlimited / serial / limited / lightweight / rejecting nodes, broadcast fan-out with a second source,
 #   a throwing body followed by a second wait and reset, an input_node source, an async_node whose gateway is completed from a thread outside
-#   the arena under reserve_wait / release_wait, a limiter feedback cycle) with 2-3 external putters and an arena thread that executes graph tasks from the start are validated by TLC (TraceFlow).
+#   the arena under reserve_wait / release_wait, a limiter feedback cycle, multifunction nodes, released reservations) with 2-3 external putters and an arena thread that executes graph tasks from the start are validated by TLC (TraceFlow).
 import vlib, flowlib, contlib
-SCEN = ['chain0', 'chain1', 'chainR', 'fan', 'cancel', 'input', 'async', 'limitc1', 'limitc2', 'limitD2', 'limitD3', 'limitD2s', 'twolim',
+SCEN = ['chain0', 'chain1', 'chainR', 'mfn', 'mfnR', 'fan', 'cancel', 'input', 'async', 'limitc1', 'limitc2', 'limitD2', 'limitD3', 'limitD2s', 'twolim',
         'reserve', 'reserve2', 'joinr']    # kept and offered again: reservations released on buffering nodes (with and without an accepting push successor), a reserving join
 
 
